@@ -50,6 +50,9 @@ func c20Families() []c20Family {
 		{name: "recursion entered from inside a match arm", build: c20Rec(c20Direct, "r(%d)", `BEGIN { print "before"; print match (1) { 1 => %s } }`, ""), lo: 1000, hi: 10000, max: 12000},
 		{name: "recursion through two nested match arms", build: c20Rec(`function r(n) { return match (n) { 0 => 0, k => match (k) { j => 1 + r(j - 1) } } }`, "r(%d)", begin, ""), lo: 500, hi: 10000, max: 12000},
 		{name: "recursion through a block-bodied arm entered from a BEGINFILE arm", build: c20Rec(`function r(n) { match (n) { 0 => { return 0 }, k => { return 1 + r(k - 1) } } }`, "r(%d)", `BEGINFILE { print "before"; match ($) { v => { print %s } } }`, "5"), lo: 1000, hi: 10000, max: 12000},
+		// the recursive call sits deep inside an expression / statement nest: more native stack per level, the same limit and the same kind of refusal
+		{name: "recursion inside a right-nested expression", build: c20Rec(`function r(n) { if (n <= 0) return 0; return 0 + (0 + (0 + (0 + (0 + (0 + (0 + (1 + r(n - 1)))))))) }`, "r(%d)", begin, ""), lo: 1000, hi: 10000, max: 12000},
+		{name: "recursion inside literals, loops and conditionals", build: c20Rec(`function r(n) { if (n <= 0) return 0; for (v in [1]) { if (1) { { t = [[[{k: [1 + r(n - 1)]}]]] } } } return t[0][0][0].k[0] }`, "r(%d)", begin, ""), lo: 1000, hi: 10000, max: 12000},
 		{name: "array store index", build: func(n int) (string, string, string) {
 			return fmt.Sprintf(`BEGIN { print "before"; a = []; a[%d] = 1; print a.length() }`, n), "", fmt.Sprintf("before\n%d\n", n+1)
 		}, lo: 1000000 - 1, hi: 2000000, max: 2100000},
@@ -346,7 +349,7 @@ func init() {
 	nf := len(c20Families())
 	fw.Register(&fw.Prop{
 		ID: "C20",
-		Rule: "one-dimensional sweeps across each limit on the real binary in a child process under ulimit -v: recursion depth for 11 shapes (direct, mutual of two and three, through a match body, an argument, a for-in body, from a pattern rule, from BEGINFILE, entered from inside a match arm, through two nested arms, through block-bodied arms), array store index directly, through a nested pending path and on an array that already has elements, printf width of both signs, JSON array and object nesting (read only, and printed whole + serialised with json()); " +
+		Rule: "one-dimensional sweeps across each limit on the real binary in a child process under ulimit -v: recursion depth for 13 shapes (inside a right-nested expression, inside literals / loops / conditionals, direct, mutual of two and three, through a match body, an argument, a for-in body, from a pattern rule, from BEGINFILE, entered from inside a match arm, through two nested arms, through block-bodied arms), array store index directly, through a nested pending path and on an array that already has elements, printf width of both signs, JSON array and object nesting (read only, and printed whole + serialised with json()); " +
 			"the refusal point is found by bisection, must lie in the documented range (a few thousand frames; about a million; exactly 65536; the decoder's limit) and the sweep checks monotonicity: the exact value below it, an ordinary runtime / JSON error with the earlier output kept and a small exit status from it on; " +
 			"plus single cases: index magnitudes 2^k and 2^k +- 1 up to 2^62, 2^63, 2^64, 10^300, reads past the limit, negative and fractional indices, unbounded recursion of four shapes, 20-digit widths, and the things that must still work (a width of a few thousand, a thousand-element array, recursion a thousand deep); states = refusal points found; non-trivial = same",
 		Plan: func(t fw.Tier) int { return nf*8 + 1 },
